@@ -374,8 +374,6 @@ async fn run_cluster(ctx: &mut Ctx, routes: &[RouteRow], tmp: &std::path::Path) 
             params.insert("port".to_string(), "1883".to_string());
             let _ = c.create_connector(ClusterConnector { name: "c1".into(), connector_type: "mqtt".into(), params, description: None });
         }
-        let boot = varpulis_cluster::raft::bootstrap(1, &["http://127.0.0.1:9".to_string()], None).await.expect("raft bootstrap");
-        let raft = boot.raft.clone();
         let raft_key: Option<String> = match &conf.raft_explicit { None => rbac.any_admin_key(), Some(k) => k.clone() };
         // the model is told exactly what the real objects were built from
         let keys = if conf.keys.is_empty() { "-".to_string() } else { conf.keys.iter().map(|(k, r)| format!("{}:{}", k, role_name(*r))).collect::<Vec<_>>().join(";") };
@@ -386,33 +384,38 @@ async fn run_cluster(ctx: &mut Ctx, routes: &[RouteRow], tmp: &std::path::Path) 
             ctx.case(&format!("anyadmin {}", opt(&raft_key)), "ok");
         }
         let creds = credentials(&conf, &raft_key, "cluster", ctx);
-        macro_rules! drive { ($filter:expr) => {{
+        macro_rules! drive { ($raft:ident, $api:ident, $adm:ident, $part:ident, $filter:expr) => {{
             let filter = $filter;
-            for (api, adm) in &creds {
-                for r in &mine {
-                    let mut paths = vec![instantiate(r, "", None)];
-                    if r.pattern.iter().any(|s| s == "{}") && (ctx.thorough || ctx.rng.chance(1, 3)) {
-                        let c = ctx.rng.pick(&lits).clone();
-                        paths.push(instantiate(r, "", Some(&c)));
-                    }
-                    for path in paths {
-                        let body = if r.body { Some(body_for("cluster", &r.handler, &HashMap::new())) } else { None };
-                        let before = format!("{} {}", coord_snapshot(&coord).await, if r.pattern[0] == "raft" { raft_snapshot(&raft).await } else { raft_read(&raft) });
-                        let ans = send(&filter, &r.method, &path, api, adm, body.as_ref()).await;
-                        let after = format!("{} {}", coord_snapshot(&coord).await, if r.pattern[0] == "raft" { raft_snapshot(&raft).await } else { raft_read(&raft) });
-                        report(ctx, r, &path, api, adm, ans, before == after);
-                    }
+            for r in mine.iter().filter(|r| (r.pattern[0] == "raft") == $part) {
+                let mut paths = vec![instantiate(r, "", None)];
+                if r.pattern.iter().any(|s| s == "{}") && (ctx.thorough || ctx.rng.chance(1, 3)) {
+                    let c = ctx.rng.pick(&lits).clone();
+                    paths.push(instantiate(r, "", Some(&c)));
+                }
+                for path in paths {
+                    let body = if r.body { Some(body_for("cluster", &r.handler, &HashMap::new())) } else { None };
+                    let before = format!("{} {}", coord_snapshot(&coord).await, if r.pattern[0] == "raft" { raft_snapshot(&$raft).await } else { raft_read(&$raft) });
+                    let ans = send(&filter, &r.method, &path, $api, $adm, body.as_ref()).await;
+                    let after = format!("{} {}", coord_snapshot(&coord).await, if r.pattern[0] == "raft" { raft_snapshot(&$raft).await } else { raft_read(&$raft) });
+                    report(ctx, r, &path, $api, $adm, ans, before == after);
                 }
             }
         }}; }
-        match &conf.raft_explicit {
-            None => drive!(varpulis_cluster::api::cluster_routes_with_raft(coord.clone(), rbac.clone(), raft.clone(), None)
-                .recover(varpulis_cluster::api::handle_rejection)),
-            Some(k) => drive!(varpulis_cluster::raft::routes::raft_routes(raft.clone(), k.clone())
-                .or(varpulis_cluster::cluster_routes(coord.clone(), rbac.clone(), None))
-                .recover(varpulis_cluster::api::handle_rejection)),
-        }
-        let _ = raft.shutdown().await;
+        for (api, adm) in &creds { for raft_part in [true, false] {
+            // a fresh raft node per credential, and another one for the non-raft routes: a node that served
+            // a vote/append keeps timers running (leader lease, election timeout) whose expiry changes its
+            // metrics at an arbitrary later moment; a refused request must meet a node nothing has reached
+            let boot = varpulis_cluster::raft::bootstrap(1, &["http://127.0.0.1:9".to_string()], None).await.expect("raft bootstrap");
+            let raft = boot.raft.clone();
+            match &conf.raft_explicit {
+                None => drive!(raft, api, adm, raft_part, varpulis_cluster::api::cluster_routes_with_raft(coord.clone(), rbac.clone(), raft.clone(), None)
+                    .recover(varpulis_cluster::api::handle_rejection)),
+                Some(k) => drive!(raft, api, adm, raft_part, varpulis_cluster::raft::routes::raft_routes(raft.clone(), k.clone())
+                    .or(varpulis_cluster::cluster_routes(coord.clone(), rbac.clone(), None))
+                    .recover(varpulis_cluster::api::handle_rejection)),
+            }
+            let _ = raft.shutdown().await;
+        } }
     }
 }
 
